@@ -269,7 +269,11 @@ def several_factories(camp, rng, n):
             failed = []
             f.clientConnectionFailed = lambda c, reason, failed=failed: failed.append(reason)
             ard = rng.random() < 0.4 and pw is not None and user is not None
-            conns.append({"f": f, "pw": pw, "user": user, "failed": failed, "ard": ard})
+            typed = None
+            if pw is not None and user is None and rng.random() < 0.5:
+                # no --username: an ARD server makes the client ask for it on the terminal
+                ard, typed = True, rng.choice(["alice", "a" * 63, "Administrator", "u ser"])
+            conns.append({"f": f, "pw": pw, "user": user if typed is None else typed, "failed": failed, "ard": ard, "typed": typed})
         order = list(range(k))
         rng.shuffle(order)
         for j in order:                        # the servers answer in another order than the factories were configured
@@ -284,14 +288,22 @@ def several_factories(camp, rng, n):
             why = None
             try:
                 if cn["ard"]:
-                    camp.count("several-factories:ard")
+                    camp.count("several-factories:ard" + (":user-typed-at-the-prompt" if cn["typed"] is not None else ""))
                     c.dataReceived(b"\x01\x1e")
                     tr.clear()
                     keylen = rng.choice([8, 16, 32])
                     m = rng.getrandbits(8 * keylen) | (1 << (8 * keylen - 1)) | 1
                     a = rng.getrandbits(8 * keylen - 2) | 1
                     g = rng.choice([2, 3, 5])
-                    c.dataReceived(struct.pack("!HH", g, keylen) + m.to_bytes(keylen, "big") + pow(g, a, m).to_bytes(keylen, "big"))
+                    import io
+                    import sys
+                    saved_io = (sys.stdin, sys.stdout, sys.stderr)
+                    if cn["typed"] is not None:
+                        sys.stdin, sys.stdout, sys.stderr = io.StringIO(cn["typed"] + "\n"), io.StringIO(), io.StringIO()
+                    try:
+                        c.dataReceived(struct.pack("!HH", g, keylen) + m.to_bytes(keylen, "big") + pow(g, a, m).to_bytes(keylen, "big"))
+                    finally:
+                        sys.stdin, sys.stdout, sys.stderr = saved_io
                     reply = tr.value()
                     want = cn["user"].encode().ljust(64, b"\0") + cn["pw"].encode().ljust(64, b"\0")
                     if len(reply) != 128 + keylen:
